@@ -4,7 +4,9 @@ CFG = dict(
     gen=[dict(spec="transform.json", out="Transform.lean")],
     theorems=["aabb_lower_bound", "aabb_contains_mono", "aabb_distance_mono", "slab_mono", "aabb_encapsulate_contains",
               "pruned_eq_scan", "containing_eq_scan_generic",
-              "containing_eq_scan", "withinRange_eq_scan", "rayElements_eq_scan"],
+              "containing_eq_scan", "withinRange_eq_scan", "rayElements_eq_scan",
+              "closest_eq_scan_generic", "seg_cp_cases", "prim_closest_in_box", "closest_eq_scan",
+              "prim_box_wf", "build_covers", "octree_queries_eq_scan_of_input"],
     streams=[dict(name="c16", n=dict(quick=120, thorough=4000))],
     trusted=T_COMMON,
     residue=[],
